@@ -340,6 +340,12 @@ def directed_cases():
     for lab, extra in (("select", {"select": ["o1"]}), ("entry", {"entry": ["plain"]}), ("select+entry", {"select": ["o1"], "entry": ["plain"]})):
         sub = {"k": "sub", "name": "inner", "prog": inner({"cfg": "bound:CFG"})}
         out.append((f"directed:shared-name-bound-in-out-of-scope-subgraph:{lab}", {"name": "outer", "nodes": [copy.deepcopy(plain), sub], "bind": {}, **extra}, None))
+    # the same one level down: the graph whose selection leaves the binding's owner out of scope is itself used as a
+    # node - what it reports as required stays required for the graph around it
+    for lab, extra in (("select", {"select": ["o1"]}), ("entry", {"entry": ["plain"]})):
+        sub = {"k": "sub", "name": "inner", "prog": inner({"cfg": "bound:CFG"})}
+        mid = {"name": "mid", "nodes": [copy.deepcopy(plain), sub], "bind": {}, **extra}
+        out.append((f"directed:out-of-scope-binding-one-level-down:{lab}", {"name": "outer", "nodes": [{"k": "sub", "name": "mid", "prog": mid}, {"k": "fn", "name": "side", "params": [{"n": "q"}], "outs": ["w"]}], "bind": {}}, None))
     # an UNSELECTED nested graph with an inner binding whose other inputs are satisfiable anyway (it still runs):
     # its bound input must resolve although the narrowed contract no longer lists it
     for lab, extra in (("select", {"select": ["p"]}), ("select-two", {"select": ["p", "m"]})):
